@@ -65,6 +65,7 @@ def budget(tier):
 
 def gen_case(rng, tier, g):
     case = _gen_case(rng, tier, g)
+    case['fluent'] = rng.random() < 0.2
     # the host application's petl.config / logging set-up must not matter
     cfg = draw_config(rng, 0.12, exclude=('sort_buffersize', 'failonerror'))
     if cfg:
@@ -329,7 +330,12 @@ def _run_join(e, case, log, probes):
     what = '%s(%r)' % (kind, hkw)
     ls = SimTable(left0, mode='alias', name='left')
     rs = SimTable(right0, mode='alias', name='right')
-    view = getattr(e, kind)(ls, rs, **hkw)
+    if case.get('fluent'):
+        # method-call style: table.hashjoin(other, ...)
+        view = getattr(e.wrap(ls), kind)(rs, **hkw)
+        probes['method-call-style'] = 1
+    else:
+        view = getattr(e, kind)(ls, rs, **hkw)
     if case.get('pre_edit'):
         _edit_rows((rs if kind != 'hashrightjoin' else ls).rows,
                    case['pre_edit'])
@@ -484,6 +490,9 @@ def _run_lookup(e, case, log, probes):
         kw['strict'] = case['strict']
     what = '%s(key=%r, %r)' % (fn, case['key'], kw)
     f = getattr(e, fn)
+    if case.get('fluent'):
+        def f(table, *a, **k):
+            return getattr(e.wrap(table), fn)(*a, **k)
     src = SimTable([list(r) for r in table], mode='alias')
     userdict = None
     if case['reuse_dict']:
